@@ -182,6 +182,9 @@ def tag_is_deprecated_check(hed_schema, tag_entry, attribute_name):
     issues = []
     deprecated_version = tag_entry.attributes.get(attribute_name, "")
     library_name = tag_entry.has_attribute(HedKey.InLibrary, return_value=True)
+    if library_name:
+        # inLibrary is inherited, so a library tag below another library tag reports e.g. "score,score"
+        library_name = library_name.split(",")[0]
     if not library_name and not hed_schema.with_standard:
         library_name = hed_schema.library
     all_versions = get_hed_versions(library_name=library_name)
